@@ -13,6 +13,9 @@ together with their REQUIRED obligation tags.
   addr   LimitsAddr.tla (counters) + LimitsAddrProto.tla (transcription of Push/Pop/Reset),
          MC_LimitsAddr*.cfg, Trace_LimitsAddr     real internal/addrlist: capacity and per-source counts only
   sem    LimitsSem.tla + LimitsSemProto.tla, MC_LimitsSem_*.cfg, Trace_LimitsSem   real internal/semaphore
+  sess   LimitsSess.tla (bounds) + LimitsSessUQ / LimitsSessPL / LimitsSessWS (design models), Trace_LimitsSess:
+         real torrent.Session on the shared harness vh (harness/c17/sess.go): upload queue, request pipeline, write cache,
+         web-seed caps, rate limits, generated configurations (connection caps: check X03, tags C17.conn.*)
   (internal/bufferpool is a bare sync.Pool wrapper without counters or limits: nothing to judge for C17.)
 
 Development aids (not part of the interface): C17_ONLY=rm,cache,... runs a subset; C17_SKIP_MC=1 skips the design-level
@@ -577,6 +580,7 @@ def check_sess(ctx, drv, launched=None):
             for mod, cfg in (("LimitsSessUQ", "MC_LimitsSessUQ_zero.cfg"), ("LimitsSessPL", "MC_LimitsSessPL_reqq.cfg"), ("LimitsSessWS", "MC_LimitsSessWS_zero.cfg")):
                 mc(ctx, mod, cfg, timeout=600)
             for mod, cfg, key in (("LimitsSessUQ", "MC_LimitsSessUQ_mut.cfg", "sess_model_uploadq_off_by_one"),
+                                  ("LimitsSessUQ", "MC_LimitsSessUQ_cancelrej.cfg", "sess_model_uploadq_cancel_matches_reject"),
                                   ("LimitsSessPL", "MC_LimitsSessPL_mut.cfg", "sess_model_pipeline_off_by_one")):
                 ok, _ = mc(ctx, mod, cfg, timeout=600, expect_ok=False)
                 ctx.extra[key] = "not detected by the bound (model)" if ok else "violates the bound the scripted peer checks (model)"
@@ -658,7 +662,13 @@ REQUIRED = {"rm": ("C17.rm.limit", "C17.rm.balance", "C17.rm.handshake", "C17.rm
             "sess": ("C17.uploadq", "C17.uploadq.refused", "C17.pipeline", "C17.pipeline.atlimit", "C17.ram", "C17.ram.contended",
                      "C17.webseed.active", "C17.webseed.atcap", "C17.rate.down", "C17.rate.up", "C17.rate.ws", "C17.config")}
 
-SUBCHECKS = [("rm", check_rm), ("cache", check_cache), ("addr", check_addr), ("sem", check_sem), ("sess", check_sess)]
+def check_conn(ctx, drv):
+    """connection caps / 'a connection whose handshake fails is closed' — the connection model of check X03 (Connect.tla)"""
+    import x03
+    x03.conn_subcheck(ctx)
+
+
+SUBCHECKS = [("rm", check_rm), ("cache", check_cache), ("addr", check_addr), ("sem", check_sem), ("sess", check_sess), ("conn", check_conn)]
 
 
 def run(ctx):
@@ -672,8 +682,10 @@ def run(ctx):
     only = os.environ.get("C17_ONLY")
     selected = [(name, fn) for name, fn in SUBCHECKS if not (only and name not in only.split(","))]
     launched = None
-    if len(selected) > 1 and any(name == "sess" for name, _ in selected):
-        launched = sess_launch(ctx, drv)       # scripted-peer scenarios mostly wait: let them run during the model checking
+    if os.environ.get("C17_OVERLAP") and len(selected) > 1 and any(name == "sess" for name, _ in selected):
+        # optional: start the scripted-peer scenarios first and let them run during the model checking (saves ~30 s, but
+        # TLC on all cores delays the sessions under test; off by default to keep the scenarios undisturbed)
+        launched = sess_launch(ctx, drv)
     for name, fn in selected:
         vlib.log("C17 sub-check", name)
         if name == "sess":
